@@ -216,6 +216,16 @@ func run() int {
 				tp = p.Pkg
 			}
 		}
+		if l.Table {
+			var sp *ssa.Package
+			for _, p := range w.Prog.AllPackages() {
+				if p.Pkg.Path() == l.PkgPath {
+					sp = p
+				}
+			}
+			results = append(results, w.VerifyTable(l, sp))
+			continue
+		}
 		results = append(results, w.VerifyLemma(l, tp))
 	}
 	tGen := time.Since(tGen0).Seconds()
@@ -245,7 +255,7 @@ func run() int {
 	// scripts must be generated sequentially per Ctx (Ctx is not thread-safe); pre-render
 	scripts := make([]string, len(all))
 	for i, o := range all {
-		if o.Trivial {
+		if o.Trivial || o.Closed {
 			continue
 		}
 		r := ctxOf[o]
@@ -256,7 +266,7 @@ func run() int {
 		scripts[i] = r.Ctx.Script(w.Prelude, asserts, nil)
 	}
 	for i, o := range all {
-		if o.Trivial {
+		if o.Trivial || o.Closed {
 			continue
 		}
 		i, o := i, o
